@@ -4,7 +4,7 @@ import struct
 from hypothesis import strategies as st
 
 from harness import build, gen, simnet, wire, utf8ref, httpref, deflateref
-from harness.runner import Prop, Enumeration, held, failed, after_every_prelude
+from harness.runner import Prop, Enumeration, held, failed, after_every_prelude, with_noise, with_companion
 from props.c01 import effective_seg
 from props.c04 import deflate_reply
 
@@ -200,7 +200,19 @@ class C05(Prop):
             {"base": ["str", "bye \u20ac"], "edits": [], "frag": [], "inter": [], "carriage": "close_reason", "seg": "whole",
              "before": []},
         ]
-        return [Enumeration("validator_automaton", groups, exhaustive=True), after_every_prelude(battery)]
+        def special_code_points():
+            # "the delivered string is its exact decoding": code points that codecs and text tools treat specially
+            # (BOM / byte-order marks, line and paragraph separators, NUL, noncharacters ...) alone, doubled, first,
+            # in the middle and last; whole, split inside the character, and after an empty first fragment
+            for ch in gen.SPECIAL_CHARS:
+                for text in (ch, ch + ch, ch + "{\"a\": 1}", "x" + ch + "y", "end" + ch):
+                    for carriage in ("plain", "deflate_uncompressed", "deflate_compressed", "close_reason"):
+                        for frag, seg in (([], "whole"), ([1], "whole"), ([0, 2], "bytewise")):
+                            yield {"base": ["str", text], "edits": [], "frag": frag, "inter": [], "carriage": carriage,
+                                   "seg": seg, "before": []}
+        return [Enumeration("validator_automaton", groups, exhaustive=True), after_every_prelude(battery),
+                with_noise(battery), with_companion(battery),
+                Enumeration("special_code_points_exact_decoding", special_code_points, exhaustive=True)]
 
     # -- hypothesis ----------------------------------------------------------------
     def strategy(self, tier):
@@ -224,6 +236,8 @@ class C05(Prop):
             "prelude": gen.prelude(),
             # a second live connection in the same process (interleaved with this one, or blocked in a send)
             "companion": gen.companion(),
+            # calls with unsendable arguments that the application tries (and whose error it catches) on the way
+            "noise_calls": gen.noise_calls(),
             # connect() options that must not matter here
             "copts_noise": gen.copts_noise(),
             "before": st.lists(st.sampled_from(["text", "binary", "fragtext"]), max_size=2),
